@@ -174,6 +174,8 @@ Put(f, x, v) == [y \in DOMAIN f \cup {x} |-> IF y = x THEN v ELSE f[y]]
 Grow(tl) == /\ srv.grown < MaxGrow
             /\ srv.n[tl] < SizeOf(tl)
             /\ srv' = [srv EXCEPT !.n[tl] = @ + 1, !.grown = @ + 1]
+            \* (not logged in the history: the head sizes are visible in the responses, and logging the moment
+            \* of a server-side step would only multiply histories that differ in nothing the client can see)
             /\ UNCHANGED <<cfg, disk, mem, inited, recCache, tileMem, tileSaved, pc, loc, stk, done, results, faults, restarts, sec, hist>>
 \* the server starts answering from another timeline (a fork is presented, or withdrawn)
 Switch(tl) == /\ srv.sw < MaxSwitch
@@ -189,26 +191,24 @@ StartLookup(t) ==
     /\ LET k == Lookups[t][done[t] + 1] IN
        /\ loc' = [loc EXCEPT ![t] = [Loc0 EXCEPT !.key = k]]
        /\ IF k \in Skip
-          THEN /\ Goto(t, "finish")
-               /\ UNCHANGED stk
+          THEN /\ Goto(t, "finish") /\ UNCHANGED <<stk, inited>>
           ELSE IF inited[Self(t)] = "no"
-          THEN /\ Goto(t, "init_key") /\ UNCHANGED stk
-          ELSE /\ Goto(t, "init_key") /\ UNCHANGED stk
+          THEN \* sync.Once: this lookup is the first to arrive and runs the initialisation
+               /\ inited' = [inited EXCEPT ![Self(t)] = "running"]
+               /\ Goto(t, "init_key") /\ UNCHANGED stk
+          ELSE /\ Goto(t, "init_wait") /\ UNCHANGED <<stk, inited>>
     /\ Log([op |-> "LookupStart", t |-> t, key |-> Lookups[t][done[t] + 1]])
-    /\ UNCHANGED <<cfg, disk, srv, mem, inited, recCache, tileMem, tileSaved, done, results, faults, restarts, sec>>
+    /\ UNCHANGED <<cfg, disk, srv, mem, recCache, tileMem, tileSaved, done, results, faults, restarts, sec>>
 
-\* sync.Once: the first thread of a client initialises it, others wait at "init_key"
 InitReadKey(t) ==
     /\ pc[t] = "init_key"
-    /\ inited[Self(t)] = "no"
-    /\ \A u \in Threads : (u # t /\ Self(u) = Self(t)) => pc[u] \notin {"init_latest", "init_merged"} /\ ~(Len(stk[u]) > 0 /\ stk[u][Len(stk[u])] = "init_merged")
     /\ Goto(t, "init_latest")
     /\ Log([op |-> "ReadConfig", t |-> t, file |-> "key"])
     /\ UNCHANGED <<cfg, disk, srv, mem, inited, recCache, tileMem, tileSaved, loc, stk, done, results, faults, restarts, sec>>
-\* initialisation already done by another lookup (sync.Once); a failed initialisation is sticky
+\* initialisation is being done, or was done, by another lookup (sync.Once); a failed initialisation is sticky
 InitWait(t) ==
-    /\ pc[t] = "init_key"
-    /\ inited[Self(t)] # "no"
+    /\ pc[t] = "init_wait"
+    /\ inited[Self(t)] \in {"ok", "failed"}
     /\ IF inited[Self(t)] = "ok"
        THEN Goto(t, "claim") /\ UNCHANGED loc
        ELSE Goto(t, "finish") /\ loc' = [loc EXCEPT ![t].res = [ok |-> FALSE, err |-> "init", rec |-> ForgedRec(0)]]
@@ -239,12 +239,18 @@ Claim(t) ==
        IF ~Has(recCache[c], k)
        THEN /\ recCache' = [recCache EXCEPT ![c] = Put(@, k, [st |-> "run", by |-> t])]
             /\ Goto(t, "lk_cache")
-            /\ UNCHANGED loc
-       ELSE /\ recCache[c][k].st = "done"
-            /\ loc' = [loc EXCEPT ![t].res = recCache[c][k].res]
-            /\ Goto(t, "finish")
+       ELSE \* another lookup of this client is fetching, or has fetched, the record: wait for its result
+            /\ Goto(t, "claim_wait")
             /\ UNCHANGED recCache
-    /\ UNCHANGED <<cfg, disk, srv, mem, inited, tileMem, tileSaved, stk, done, results, faults, restarts, sec, hist>>
+    /\ Log([op |-> "Hook", t |-> t, point |-> "claim", key |-> loc[t].key])
+    /\ UNCHANGED <<cfg, disk, srv, mem, inited, tileMem, tileSaved, loc, stk, done, results, faults, restarts, sec>>
+ClaimWait(t) ==
+    /\ pc[t] = "claim_wait"
+    /\ LET c == Self(t) k == loc[t].key IN
+       /\ recCache[c][k].st = "done"
+       /\ loc' = [loc EXCEPT ![t].res = recCache[c][k].res]
+    /\ Goto(t, "finish")
+    /\ UNCHANGED <<cfg, disk, srv, mem, inited, recCache, tileMem, tileSaved, stk, done, results, faults, restarts, sec, hist>>
 
 \* ReadCache of the lookup file: what is on disk, nothing, or (fault) anything
 LkCache(t) ==
@@ -269,24 +275,30 @@ LkCache(t) ==
 
 LkRemote(t) ==
     /\ pc[t] = "lk_remote"
-    /\ LET k == loc[t].key IN
-       \/ \* the current timeline has no such record yet: the server answers 404
-          /\ k >= srv.n[srv.cur]
+    /\ LET k == loc[t].key tl == srv.cur IN
+       \/ \* the current timeline has no such record at all: the server answers 404
+          /\ k >= SizeOf(tl)
           /\ loc' = [loc EXCEPT ![t].resp = NetErr, ![t].src = "net"]
           /\ Log([op |-> "ReadRemote", t |-> t, path |-> LookupFile(k), fault |-> FALSE, data |-> NetErr])
+          /\ UNCHANGED <<faults, srv>>
+       \/ \* honest answer: the record under the current signed head; a record not yet covered by the
+          \* served head is appended first (the log grows on demand, as in the reference server)
+          /\ k < SizeOf(tl)
+          /\ LET n2 == IF k < srv.n[tl] THEN srv.n[tl] ELSE k + 1
+                 r == Resp(TrueRec(tl, k), GoodHead(tl, n2)) IN
+             /\ srv' = [srv EXCEPT !.n[tl] = n2]
+             /\ loc' = [loc EXCEPT ![t].resp = r, ![t].src = "net"]
+             /\ Log([op |-> "ReadRemote", t |-> t, path |-> LookupFile(k), fault |-> FALSE, data |-> r])
           /\ UNCHANGED faults
-       \/ \E tl \in {srv.cur} :
-            /\ k < srv.n[tl]
-            /\ loc' = [loc EXCEPT ![t].resp = HonestResp(tl, k), ![t].src = "net"]
-            /\ Log([op |-> "ReadRemote", t |-> t, path |-> LookupFile(k), fault |-> FALSE, data |-> HonestResp(tl, k)])
-            /\ UNCHANGED faults
        \/ /\ faults < MaxFaults
+          /\ k < srv.n[tl]
           /\ \E r \in LookupFaults(k) :
                /\ loc' = [loc EXCEPT ![t].resp = r, ![t].src = "net"]
                /\ Log([op |-> "ReadRemote", t |-> t, path |-> LookupFile(k), fault |-> TRUE, data |-> r])
           /\ faults' = faults + 1
+          /\ UNCHANGED srv
     /\ Goto(t, "lk_parse")
-    /\ UNCHANGED <<cfg, disk, srv, mem, inited, recCache, tileMem, tileSaved, stk, done, results, restarts, sec>>
+    /\ UNCHANGED <<cfg, disk, mem, inited, recCache, tileMem, tileSaved, stk, done, results, restarts, sec>>
 
 Fail(t, e) == loc' = [loc EXCEPT ![t].res = [ok |-> FALSE, err |-> e, rec |-> ForgedRec(0)]]
 
@@ -364,7 +376,8 @@ MlSnap(t) ==
     /\ pc[t] = "ml_snap"
     /\ loc' = [loc EXCEPT ![t].lmsg = mem[Self(t)]]
     /\ Goto(t, "ml_write")
-    /\ UNCHANGED <<cfg, disk, srv, mem, inited, recCache, tileMem, tileSaved, stk, done, results, faults, restarts, sec, hist>>
+    /\ Log([op |-> "Hook", t |-> t, point |-> "cfgsnap"])
+    /\ UNCHANGED <<cfg, disk, srv, mem, inited, recCache, tileMem, tileSaved, stk, done, results, faults, restarts, sec>>
 \* WriteConfig: atomic compare-and-swap on the configuration file
 MlWrite(t) ==
     /\ pc[t] = "ml_write"
@@ -389,7 +402,8 @@ MmOpen(t) ==
             /\ Return(t)
        ELSE /\ loc' = [loc EXCEPT ![t].tree = m, ![t].snap = mem[c], ![t].err = "", ![t].when = ""]   \* snapshot under the lock
             /\ Goto(t, "mm_loop") /\ UNCHANGED stk
-    /\ UNCHANGED <<cfg, disk, srv, mem, inited, recCache, tileMem, tileSaved, done, results, faults, restarts, sec, hist>>
+    /\ Log([op |-> "Hook", t |-> t, point |-> "merge"])
+    /\ UNCHANGED <<cfg, disk, srv, mem, inited, recCache, tileMem, tileSaved, done, results, faults, restarts, sec>>
 MmLoop(t) ==
     /\ pc[t] = "mm_loop"
     /\ IF loc[t].tree.n <= loc[t].snap.n
@@ -415,7 +429,9 @@ MmInstall(t) ==
             /\ Return(t)
        ELSE /\ loc' = [loc EXCEPT ![t].snap = mem[c]]
             /\ Goto(t, "mm_loop") /\ UNCHANGED <<stk, mem>>
-    /\ UNCHANGED <<cfg, disk, srv, inited, recCache, tileMem, tileSaved, done, results, faults, restarts, sec, hist>>
+    /\ IF loc[t].err # "" THEN UNCHANGED hist
+       ELSE Log([op |-> "Hook", t |-> t, point |-> "install", ok |-> mem[Self(t)] = loc[t].snap, n |-> loc[t].tree.n])
+    /\ UNCHANGED <<cfg, disk, srv, inited, recCache, tileMem, tileSaved, done, results, faults, restarts, sec>>
 
 \* ------------------------------------------------------------------ checkTrees
 CtStart(t) ==
@@ -448,7 +464,8 @@ CrStart(t) ==
        THEN /\ loc' = [loc EXCEPT ![t].err = "range"] /\ Return(t)
        ELSE /\ loc' = [loc EXCEPT ![t].trTree = snap, ![t].trIdx = <<<<0, id>>>>, ![t].err = ""]
             /\ Goto(t, "tr_plan") /\ Push(t, "cr_cmp")
-    /\ UNCHANGED <<cfg, disk, srv, mem, inited, recCache, tileMem, tileSaved, done, results, faults, restarts, sec, hist>>
+    /\ Log([op |-> "Hook", t |-> t, point |-> "check"])
+    /\ UNCHANGED <<cfg, disk, srv, mem, inited, recCache, tileMem, tileSaved, done, results, faults, restarts, sec>>
 CrCmp(t) ==
     /\ pc[t] = "cr_cmp"
     /\ loc' = [loc EXCEPT ![t].err = IF loc[t].err # "" THEN loc[t].err
@@ -603,7 +620,7 @@ Restart(c) ==
 
 ThreadStep(t) ==
     \/ StartLookup(t) \/ InitReadKey(t) \/ InitWait(t) \/ InitReadLatest(t) \/ InitMerged(t)
-    \/ Claim(t) \/ LkCache(t) \/ LkRemote(t) \/ LkParse(t) \/ LkMerged(t) \/ LkChecked(t) \/ LkDone(t) \/ Finish(t)
+    \/ Claim(t) \/ ClaimWait(t) \/ LkCache(t) \/ LkRemote(t) \/ LkParse(t) \/ LkMerged(t) \/ LkChecked(t) \/ LkDone(t) \/ Finish(t)
     \/ MlStart(t) \/ MlAfter1(t) \/ MlReadCfg(t) \/ MlAfter2(t) \/ MlSnap(t) \/ MlWrite(t)
     \/ MmOpen(t) \/ MmLoop(t) \/ MmOldDone(t) \/ MmInstall(t)
     \/ CtStart(t) \/ CtCmp(t) \/ CrStart(t) \/ CrCmp(t)
@@ -659,6 +676,15 @@ SecurityHasBoth == \A t \in Threads : \A i \in 1..Len(results[t]) :
 \* per client and key at most one fetch (cache read or network read of the lookup file)
 FetchOnce == \A c \in Clients, k \in 0..(SizeA + SizeB) :
     Cardinality({i \in 1..Len(hist) : hist[i].op = "ReadCache" /\ hist[i].file = LookupFile(k) /\ Self(hist[i].t) = c /\ restarts = 0}) <= 1
+\* the same, on the state: a (client, key) is being fetched by at most one thread, and only while its
+\* record-cache entry says so; entries are never removed, so each key is fetched at most once per client life
+InFetch(t) == pc[t] \in {"lk_cache", "lk_remote", "lk_parse", "lk_merged", "lk_checked", "lk_done"}
+              \/ (Len(stk[t]) > 0 /\ stk[t][Len(stk[t])] \in {"lk_merged", "lk_checked"})
+FetchExclusive ==
+    /\ \A t, u \in Threads : (t # u /\ Self(t) = Self(u) /\ InFetch(t) /\ InFetch(u)) => loc[t].key # loc[u].key
+    /\ \A t \in Threads : InFetch(t) => (Has(recCache[Self(t)], loc[t].key) /\ recCache[Self(t)][loc[t].key] = [st |-> "run", by |-> t])
+\* a skipped path never leaves the entry/exit steps of Lookup (no external operation)
+SkipSilentState == \A t \in Threads : loc[t].key \in Skip => pc[t] \in {"idle", "finish"}
 \* at quiescence the stored head is the largest head any client holds
 QuiescentConfig == AllDone => \A c \in Clients : PrefixOf(mem[c], cfg) \/ mem[c].kind = "empty"
 \* a path matching the pattern list causes no external operation: checked on the history
